@@ -40,7 +40,7 @@ func (s *Server) Completion(ctx context.Context, params *protocol.CompletionPara
 
 	var result *analyzer.AnalysisResult
 
-	if resolved := s.getWorkspaceResolved(params.TextDocument.URI); resolved != nil {
+	if resolved := s.withOpenDocuments(s.getWorkspaceResolved(params.TextDocument.URI)); resolved != nil {
 		result = s.analyzer.AnalyzeResolved(resolved)
 	} else {
 		journal, _ := parser.Parse(doc)
